@@ -179,6 +179,8 @@ class Analysis:
         r2 = self.f.fn(c)
         if r2 is None or r2.get('impl_adt') not in self.owners:
             return False
+        if re.match(r'^<.+ as (core|std|alloc)::', c):
+            return False        # derived / std trait impls (Clone, PartialEq, Hash, Debug) touch every field by construction
         return all(self.ctx_marker in r2['locals'][i][0] for i in range(2, r2['argc'] + 1))
 
     def _targets(self, c, argtys=()):
